@@ -180,7 +180,7 @@ def _mp_body(case, ctx):
         ring = np.ones(shape, dtype=bool)
         if all(n > 2 for n in shape):
             ring[inner] = False
-        if f[c][ring].tobytes() != f0[c][ring].tobytes():
+        if f[c][ring].tobytes() != f0[c][ring].tobytes() and not np.array_equal(f[c][ring], f0[c][ring]):  # sign of zero aside
             raise Violation(f"{name}: boundary-ring cells changed by the diffusion step")
         if not all(n > 2 for n in shape):
             continue
